@@ -117,6 +117,8 @@ pub mod reqwest {
             ensures r matches Ok(c) ==> c.roots == self.roots && c.insecure == self.insecure { unimplemented!() }
     }
     pub struct Client { pub roots: Ghost<Set<Seq<u8>>>, pub insecure: Ghost<bool> }
+    // reqwest::Client is a handle: a clone shares the configuration (trust anchors included)
+    impl Clone for Client { #[verifier::external_body] fn clone(&self) -> (r: Self) ensures r == *self { unimplemented!() } }
     pub struct RequestBuilder {
         pub roots: Ghost<Set<Seq<u8>>>, pub insecure: Ghost<bool>,
         pub is_post: Ghost<bool>, pub url: Ghost<Seq<char>>, pub body: Ghost<Seq<char>>,
